@@ -481,7 +481,13 @@ def _tag_array_dtype(model, rep):
                         continue
                     n += 1
                     typed = any(k.arg == "dtype" for k in c.keywords) or \
-                        len(c.args) > 1
+                        len(c.args) > 1 or any(
+                            isinstance(y, ast.Call) and isinstance(
+                                y.func, ast.Attribute)
+                            and y.func.attr == "astype" and y.args
+                            and "int" in src(y.args[0])
+                            and c in list(ast.walk(y.func.value))
+                            for y in ast.walk(v))
                     cons = f"{fn.short()}:{src(st.targets[0])}:integer-tags"
                     if typed:
                         rep.ok(R1, cons, "tag array built from a list with "
@@ -1349,6 +1355,9 @@ MUTANTS = [
 _SWAP = ("        t0 = t[0, flip]\n        t1 = t[1, flip]\n"
          "        t[0, flip] = t1\n        t[1, flip] = t0\n")
 TWINS = [
+    ("to_meshtri converts the boundary tags with astype",
+     (_QU, "self.boundaries[k])]],\n                    dtype=np.int32)",
+      "self.boundaries[k])]]).astype(np.int32)")),
     ("to_meshtri builds boundary tags as int64",
      (_QU, "self.boundaries[k])]],\n                    dtype=np.int32)",
       "self.boundaries[k])]], dtype=np.int64)")),
